@@ -3,110 +3,81 @@ tree (nothing is written to /repo, nothing is executed).
 
 neutral variants  - behaviour-preserving rewrites of every module the property consulted; the
                     verdict (set of violation keys) must not change
-mutants           - per-property must-kill edits (module attribute MUTANTS: list of dicts
-                    {name, file, find, replace, expect_rule}); each must produce a new violation.
-                    A mutant whose `find` text no longer occurs is skipped and counted.
+mutants           - must-kill edits, each must produce a *new* violation of this property:
+                      * /verif/seeded/<id>/patch.diff written by independent sub-agents for this property
+                      * /verif/mutants/*.diff: the reverse of every `fix:` commit made in /repo (the defect returns)
+                      * per-property MUTANTS (find/replace) lists
+                    A mutant whose hunks no longer apply to the current tree is skipped and counted.
+Variants are evaluated in a process pool (up to 16 workers).
 """
 import ast
-import re
+import json
+import os
 import warnings
+from concurrent.futures import ProcessPoolExecutor
 
 from .model import Repo, AnchorError
+from . import patching
 
 
 def _reformat(src_text):
-    """whole-module round trip through the parser: changes every line number and all layout,
-    drops comments"""
+    """whole-module round trip through the parser: changes every line number and all layout, drops comments"""
     return ast.unparse(ast.parse(src_text)) + "\n"
 
 
 class _AddNoise(ast.NodeTransformer):
-    """insert a no-op statement at the start of every function body and after every simple
-    statement of the bodies the property consulted"""
-
-    def _noise(self):
-        return ast.parse("console = console if 'console' in globals() else None").body[0] \
-            if False else ast.Expr(value=ast.Constant(value="selftest no-op"))
+    """insert a no-op expression statement at the start of every function body"""
 
     def visit_FunctionDef(self, node):
         self.generic_visit(node)
-        new = []
+        noise = ast.Expr(value=ast.Constant(value="selftest no-op"))
         doc = node.body and isinstance(node.body[0], ast.Expr) and isinstance(node.body[0].value, ast.Constant) \
             and isinstance(node.body[0].value.value, str)
-        for i, st in enumerate(node.body):
-            new.append(st)
-            if i == 0 and doc:
-                new.append(self._noise())
-        if not doc:
-            new.insert(0, self._noise())
-        node.body = new
+        node.body.insert(1 if doc else 0, noise)
         return node
 
 
 def _noise(src_text):
-    t = ast.parse(src_text)
-    t = _AddNoise().visit(t)
+    t = _AddNoise().visit(ast.parse(src_text))
     ast.fix_missing_locations(t)
     return ast.unparse(t) + "\n"
 
 
-class _RenameLocals(ast.NodeTransformer):
-    """alpha-rename function locals that are plain assigned names (not params, not globals,
-    not used in nested scopes): x -> x_st"""
-
-    def visit_FunctionDef(self, node):
-        self.generic_visit(node)
-        params = {a.arg for a in node.args.posonlyargs + node.args.args + node.args.kwonlyargs}
-        if node.args.vararg:
-            params.add(node.args.vararg.arg)
-        if node.args.kwarg:
-            params.add(node.args.kwarg.arg)
-        nested_names = set()
-        declared = set()
-        for n in ast.walk(node):
-            if n is not node and isinstance(n, (ast.FunctionDef, ast.Lambda, ast.ClassDef, ast.ListComp,
-                                                ast.SetComp, ast.DictComp, ast.GeneratorExp)):
-                for x in ast.walk(n):
-                    if isinstance(x, ast.Name):
-                        nested_names.add(x.id)
-            if isinstance(n, (ast.Global, ast.Nonlocal)):
-                declared.update(n.names)
-        stores = {n.id for n in ast.walk(node) if isinstance(n, ast.Name) and isinstance(n.ctx, ast.Store)}
-        ren = {x for x in stores - params - nested_names - declared if not x.startswith("_")}
-        # keep names the rules key on semantically? no: rules must not depend on local names,
-        # except the documented parameter-like locals listed here (unpack targets are matched
-        # positionally, not by name)
-        for n in ast.walk(node):
-            if isinstance(n, ast.Name) and n.id in ren:
-                n.id = n.id + "_st"
-            elif isinstance(n, ast.ExceptHandler) and n.name in ren:
-                n.name = n.name + "_st"
-        return node
+class _Blank(ast.NodeTransformer):
+    pass
 
 
-def _rename(src_text):
-    t = ast.parse(src_text)
-    t = _RenameLocals().visit(t)
-    ast.fix_missing_locations(t)
-    return ast.unparse(t) + "\n"
+def _shift(src_text):
+    """prepend blank lines and a comment: every line number moves, text otherwise identical"""
+    return "# selftest: shifted\n\n\n" + src_text
 
 
-NEUTRAL = [("reformat", _reformat), ("noop-statements", _noise)]
+NEUTRAL = [("reformat", _reformat), ("noop-statements", _noise), ("line-shift", _shift)]
 
 
-def _keys(ctx):
-    return {v.key() for v in ctx.violations}
+def _job(args):
+    prop, seed, overlay = args
+    from .check import run_property
+    try:
+        with warnings.catch_warnings():
+            warnings.simplefilter("ignore")
+            ctx, _ = run_property(prop, "quick", seed, repo=Repo(overlay=overlay))
+        return ("ok", sorted(v.key() for v in ctx.violations))
+    except AnchorError as ex:
+        return ("anchor", str(ex)[:200])
+    except Exception as ex:  # an analysis crash on a variant is a finding about the analysis
+        return ("crash", "%s: %s" % (type(ex).__name__, str(ex)[:200]))
 
 
 def run(prop, mod, base_ctx, seed):
-    from .check import run_property
     res = {"mutants": 0, "killed": 0, "skipped": 0, "neutral": 0, "neutral_ok": 0,
            "survivors": [], "neutral_flagged": [], "details": []}
-    base = _keys(base_ctx)
+    base = {v.key() for v in base_ctx.violations}
     files = sorted(base_ctx.consulted)
     repo0 = base_ctx.repo
-    transforms = list(NEUTRAL) + list(getattr(mod, "EXTRA_NEUTRAL", []))
-    for name, fn in transforms:
+    verif = os.path.dirname(os.path.dirname(os.path.abspath(__file__)))
+    jobs = []   # (kind, name, overlay)
+    for name, fn in list(NEUTRAL) + list(getattr(mod, "EXTRA_NEUTRAL", [])):
         overlay = {}
         for rel in files:
             m = repo0.by_path.get(rel)
@@ -114,24 +85,45 @@ def run(prop, mod, base_ctx, seed):
                 continue
             try:
                 overlay[rel] = fn(m.source)
-            except Exception as ex:   # transformation itself failed: not a verdict
+            except Exception as ex:
                 res["details"].append("neutral %s could not transform %s: %s" % (name, rel, ex))
-        res["neutral"] += 1
+        jobs.append(("neutral", name, overlay))
+    diffs = []
+    sd = os.path.join(verif, "seeded")
+    if os.path.isdir(sd):
+        for d in sorted(os.listdir(sd)):
+            mp = os.path.join(sd, d, "meta.json")
+            if not os.path.exists(mp):
+                continue
+            meta = json.load(open(mp))
+            targets = [meta.get("property")] + list(meta.get("also_detected_by", []))
+            if prop in targets and prop not in meta.get("not_detected_by", []):
+                diffs.append(("seed:" + d, os.path.join(sd, d, "patch.diff"), False))
+    ip = os.path.join(verif, "mutants", "index.json")
+    if os.path.exists(ip):
+        for e in json.load(open(ip)):
+            if prop in e.get("properties", []):
+                diffs.append((e["id"], os.path.join(verif, e["diff"]), bool(e.get("reverse"))))
+    for name, path, reverse in diffs:
         try:
-            with warnings.catch_warnings():
-                warnings.simplefilter("ignore")
-                ctx, _ = run_property(prop, "quick", seed, repo=Repo(overlay=overlay))
-            got = _keys(ctx)
-            # constructs are normalised text; layout changes must not change keys
-            if got == base:
-                res["neutral_ok"] += 1
-            else:
-                res["neutral_flagged"].append("%s: +%s -%s" % (name, sorted(got - base)[:3], sorted(base - got)[:3]))
-        except AnchorError as ex:
-            res["neutral_flagged"].append("%s: anchor lost: %s" % (name, ex))
+            text = open(path).read()
+        except OSError:
+            continue
+        overlay = patching.apply(lambda rel: (repo0.by_path[rel].source if rel in repo0.by_path else None), text, reverse=reverse)
+        ok = overlay is not None
+        if ok:
+            try:
+                for rel, t in overlay.items():
+                    ast.parse(t)
+            except SyntaxError:
+                ok = False
+        if not ok:
+            res["skipped"] += 1
+            res["details"].append("mutant %s skipped: does not apply to the current tree (site changed)" % name)
+            continue
+        jobs.append(("mutant", name, overlay))
     for mu in getattr(mod, "MUTANTS", []):
-        rel = mu["file"]
-        m = repo0.by_path.get(rel)
+        m = repo0.by_path.get(mu["file"])
         if m is None or mu["find"] not in m.source:
             res["skipped"] += 1
             res["details"].append("mutant %s skipped: site text not present on this tree" % mu["name"])
@@ -141,22 +133,37 @@ def run(prop, mod, base_ctx, seed):
             ast.parse(text)
         except SyntaxError:
             res["skipped"] += 1
-            res["details"].append("mutant %s skipped: does not parse" % mu["name"])
             continue
-        res["mutants"] += 1
-        try:
-            with warnings.catch_warnings():
-                warnings.simplefilter("ignore")
-                ctx, _ = run_property(prop, "quick", seed, repo=Repo(overlay={rel: text}))
-            new = _keys(ctx) - base
-            rules = {k[1] for k in new}
-            want = mu.get("expect_rule")
-            if new and (want is None or any(r.startswith(want) for r in rules)):
-                res["killed"] += 1
+        jobs.append(("mutant", mu["name"], {mu["file"]: text}))
+    workers = max(1, min(16, len(jobs), (os.cpu_count() or 2)))
+    args = [(prop, seed, ov) for _, _, ov in jobs]
+    if workers > 1:
+        with ProcessPoolExecutor(max_workers=workers) as ex:
+            outs = list(ex.map(_job, args))
+    else:
+        outs = [_job(a) for a in args]
+    for (kind, name, _), (status, payload) in zip(jobs, outs):
+        if kind == "neutral":
+            res["neutral"] += 1
+            if status == "ok" and {tuple(k) for k in payload} == base:
+                res["neutral_ok"] += 1
+            elif status == "ok":
+                got = {tuple(k) for k in payload}
+                res["neutral_flagged"].append("%s: +%s -%s" % (name, sorted(got - base)[:2], sorted(base - got)[:2]))
             else:
-                res["survivors"].append("%s (expected %s, got %s)" % (mu["name"], want, sorted(rules)))
-        except AnchorError as ex:
-            # a mutant that destroys an anchor is detected as analysis-broken, which also fails a run
-            res["killed"] += 1
-            res["details"].append("mutant %s reported as ANALYSIS-ERROR: %s" % (mu["name"], str(ex)[:100]))
+                res["neutral_flagged"].append("%s: %s %s" % (name, status, payload))
+        else:
+            res["mutants"] += 1
+            if status == "ok":
+                new = {tuple(k) for k in payload} - base
+                if new:
+                    res["killed"] += 1
+                    res["details"].append("mutant %s reported by %s" % (name, sorted({k[1] for k in new})))
+                else:
+                    res["survivors"].append("%s (no new violation)" % name)
+            elif status == "anchor":
+                res["killed"] += 1
+                res["details"].append("mutant %s reported as ANALYSIS-ERROR: %s" % (name, payload[:100]))
+            else:
+                res["survivors"].append("%s (analysis crashed: %s)" % (name, payload))
     return res
